@@ -476,9 +476,9 @@ pub fn run(args: &Args) -> i32 {
         }
         let mut rng = Rng::new(args.case_seed(c));
         if c % 100 == 99 && !crate::props::sched::tiny() {
-            overlap_case(&mut rng, &mut rep, c);
+            guard_case(&mut rep, c, |rep| overlap_case(&mut rng, rep, c));
         } else {
-            case(&mut rng, &mut pools, &mut rep, c);
+            guard_case(&mut rep, c, |rep| case(&mut rng, &mut pools, rep, c));
         }
     }
     rep.finish();
